@@ -37,6 +37,20 @@ impl VisitableMut for syn::WhereClause {
         visit.visit_where_clause_mut(self);
     }
 }
+/// The type as it has to be written behind `&`, `&mut` or `&'a`:
+/// a bare trait object or `impl Trait` with several bounds needs parentheses (`&(dyn A + Send)`).
+pub fn ref_target(ty: &Type) -> proc_macro2::TokenStream {
+    let needs_paren = match ty {
+        Type::TraitObject(t) => t.bounds.len() > 1,
+        Type::ImplTrait(t) => t.bounds.len() > 1,
+        _ => false,
+    };
+    if needs_paren {
+        quote::quote!((#ty))
+    } else {
+        quote::quote!(#ty)
+    }
+}
 pub fn expand_self<T: VisitableMut + Clone>(input: &T, to: &Type) -> T {
     struct ExpandSelfVisitor<'a> {
         to: &'a Type,
